@@ -6393,6 +6393,84 @@ func init() {
 		Fn:    ruleWinnerFromCompleteVote})
 }
 
+// winnerFromVote: "" when val is a key picked in a loop over a vote table (or a constant) and enters that loop afresh;
+// otherwise what is wrong with it.
+func winnerFromVote(w *World, val ssa.Value, f *ssa.Function, depth int) string {
+	bad := ""
+	for _, rv := range roots(val, f) {
+		switch x := rv.V.(type) {
+		case *ssa.Const:
+			continue
+		case *ssa.Extract:
+			if nx, ok := x.Tuple.(*ssa.Next); ok {
+				if rg, ok := nx.Iter.(*ssa.Range); ok {
+					if _, isMap := rg.X.Type().Underlying().(*types.Map); isMap {
+						continue
+					}
+				}
+			}
+			bad = x.Name() + " at " + w.pos(x.Pos())
+		case *ssa.Call:
+			// the winner is picked by a helper of the package (tallyVotes(votemap)): what the helper returns is
+			// judged the same way
+			g := x.Call.StaticCallee()
+			if g != nil && g != f && len(g.Blocks) > 0 && g.Pkg == f.Pkg && depth < 2 {
+				for _, gb := range g.Blocks {
+					if ret, ok := gb.Instrs[len(gb.Instrs)-1].(*ssa.Return); ok && len(ret.Results) == 1 {
+						if b2 := winnerFromVote(w, ret.Results[0], g, depth+1); b2 != "" {
+							bad = b2
+						}
+					}
+				}
+				continue
+			}
+			bad = rv.V.Name() + " at " + w.pos(rv.V.Pos())
+		default:
+			bad = rv.V.Name() + " at " + w.pos(rv.V.Pos())
+		}
+	}
+	// the winner starts afresh for every 2x2x2 cell: where the written value enters the loop over the vote table
+	// from outside, it is a constant, not a winner carried over from the previous cell
+	if bad == "" {
+		loops := naturalLoops(f)
+		seenPhi := map[ssa.Value]bool{}
+		var walk func(v ssa.Value)
+		walk = func(v ssa.Value) {
+			phi, ok := v.(*ssa.Phi)
+			if !ok || seenPhi[v] {
+				return
+			}
+			seenPhi[v] = true
+			// is this phi at the header of a loop that ranges over the vote table?
+			set := loops[phi.Block()]
+			voteLoop := false
+			for b := range set {
+				for _, in := range b.Instrs {
+					if nx, ok := in.(*ssa.Next); ok {
+						if rg, ok := nx.Iter.(*ssa.Range); ok {
+							if _, isMap := rg.X.Type().Underlying().(*types.Map); isMap {
+								voteLoop = true
+							}
+						}
+					}
+				}
+			}
+			for i, e := range phi.Edges {
+				pred := phi.Block().Preds[i]
+				if voteLoop && set != nil && !set[pred] {
+					if _, isK := e.(*ssa.Const); !isK {
+						bad = "the winner enters the loop over the vote table with a value carried from the previous cell (" + w.pos(phi.Pos()) + ")"
+					}
+					continue
+				}
+				walk(e)
+			}
+		}
+		walk(val)
+	}
+	return bad
+}
+
 func ruleWinnerFromCompleteVote(r *Run) {
 	w := r.W
 	f := w.fn("datatype/common/labels", "downresArray")
@@ -6407,64 +6485,7 @@ func ruleWinnerFromCompleteVote(r *Run) {
 		}
 		n++
 		args := c.Common().Args
-		val := args[len(args)-1]
-		bad := ""
-		for _, rv := range roots(val, f) {
-			switch x := rv.V.(type) {
-			case *ssa.Const:
-				continue
-			case *ssa.Extract:
-				if nx, ok := x.Tuple.(*ssa.Next); ok {
-					if rg, ok := nx.Iter.(*ssa.Range); ok {
-						if _, isMap := rg.X.Type().Underlying().(*types.Map); isMap {
-							continue
-						}
-					}
-				}
-				bad = x.Name() + " at " + w.pos(x.Pos())
-			default:
-				bad = rv.V.Name() + " at " + w.pos(rv.V.Pos())
-			}
-		}
-		// the winner starts afresh for every 2x2x2 cell: where the written value enters the loop over the vote table
-		// from outside, it is a constant, not a winner carried over from the previous cell
-		if bad == "" {
-			loops := naturalLoops(f)
-			seenPhi := map[ssa.Value]bool{}
-			var walk func(v ssa.Value)
-			walk = func(v ssa.Value) {
-				phi, ok := v.(*ssa.Phi)
-				if !ok || seenPhi[v] {
-					return
-				}
-				seenPhi[v] = true
-				// is this phi at the header of a loop that ranges over the vote table?
-				set := loops[phi.Block()]
-				voteLoop := false
-				for b := range set {
-					for _, in := range b.Instrs {
-						if nx, ok := in.(*ssa.Next); ok {
-							if rg, ok := nx.Iter.(*ssa.Range); ok {
-								if _, isMap := rg.X.Type().Underlying().(*types.Map); isMap {
-									voteLoop = true
-								}
-							}
-						}
-					}
-				}
-				for i, e := range phi.Edges {
-					pred := phi.Block().Preds[i]
-					if voteLoop && set != nil && !set[pred] {
-						if _, isK := e.(*ssa.Const); !isK {
-							bad = "the winner enters the loop over the vote table with a value carried from the previous cell (" + w.pos(phi.Pos()) + ")"
-						}
-						continue
-					}
-					walk(e)
-				}
-			}
-			walk(val)
-		}
+		bad := winnerFromVote(w, args[len(args)-1], f, 0)
 		r.check(bad == "", fmt.Sprintf("downresArray:written-label#%d:picked-over-the-vote-table", n), "the written label is a key picked in the loop over the vote table",
 			"the label written for a 2x2x2 cell can be one fixed outside the loop over the vote table ("+bad+"): with two labels at four votes each the documented tie-break (the smaller label) is skipped, and the stored lower-resolution block differs from the specified down-sampling", w.pos(c.Pos()))
 	}
@@ -9255,6 +9276,9 @@ func ruleMergedRecordIsWritten(r *Run) {
 			if mu, ok := in.(*ssa.MapUpdate); ok && isFieldLoad(mu.Map, "memdb", "data") {
 				memUpd = in
 			}
+			if c, ok := in.(*ssa.Call); ok && memdbMutator(c.Call.StaticCallee(), true) {
+				memUpd = in
+			}
 		}
 	}
 	r.check(memUpd != nil, "storeAndUpdate:in-memory-update", "the head database's record map is updated", "no update of mdb.data found: the head no longer follows the store", w.fpos(f))
@@ -11977,7 +12001,7 @@ func ruleEveryVoteCompared(r *Run) {
 			}
 		}
 	}
-	r.check(n >= 2, "labels:vote-loops", fmt.Sprintf("%d", n), "too few found: rule needs review", "-")
+	r.check(n >= 1, "labels:vote-loops", fmt.Sprintf("%d", n), "none found: rule needs review", "-")
 }
 
 // ---------------------------------------------------------------------------------------------
